@@ -116,7 +116,7 @@ func copyScenario(name string, sa, sb sideScript, bound int, free bool) mc.Scena
 			}
 			aLocal.WriteFault = wf(0, sa)
 			bLocal.WriteFault = wf(1, sb)
-			res := sched.Run(c, sched.Options{FreeSwitch: free}, func() {
+			res := sched.Run(c, sched.Options{FreeSwitch: free, MainMayBlock: true}, func() {
 				s := sched.Cur()
 				s.Spawn("envA", env(0, aPeer, sa, 'a'))
 				s.Spawn("envB", env(1, bPeer, sb, 'A'))
@@ -248,7 +248,7 @@ func termScenario(name string, handlers int, sigs []os.Signal, bound int) mc.Sce
 			key := func() string {
 				return fmt.Sprintf("num=%d phase=%s first=%v started=%v finished=%v acked=%v delivered=%d atexit=%d", m.num(), mainPhase, first, started, finished, acked, delivered, ackedAtExit)
 			}
-			res := sched.Run(c, sched.Options{FreeSwitch: true, StateKey: key}, func() {
+			res := sched.Run(c, sched.Options{FreeSwitch: true, StateKey: key, MainMayBlock: true}, func() {
 				s := sched.Cur()
 				for i := 0; i < handlers; i++ {
 					i := i
